@@ -120,6 +120,17 @@ def build(case: Dict[str, Any]):
     if case.get("simba") and obs == "vector" and kind in ("QNetwork", "ContinuousQNetwork", "ValueNetwork", "DeterministicActor", "StochasticActor"):
         nc["simba"] = True
         nc.pop("encoder_config", None)
+    ce = case.get("custom_encoder")
+    if ce and kind != "RainbowQNetwork" and not nc.get("simba") and not nc.get("recurrent"):
+        # a user-supplied encoder class (or the "ResNet" alias): the network then rebuilds the encoder through that class's constructor description
+        if ce == "mlp" and obs == "vector":
+            nc["encoder_cls"] = EvolvableMLP
+            nc["encoder_config"] = {"num_inputs": 5, "hidden_size": [16], "activation": "ReLU", "min_hidden_layers": 1, "max_hidden_layers": 2, "min_mlp_nodes": 8, "max_mlp_nodes": 40}
+        elif ce == "resnet" and obs == "image":
+            h_, w2_ = case.get("img_hw", [12, 12])
+            nc["encoder_cls"] = "ResNet"
+            nc["encoder_config"] = {"input_shape": [3, h_, w2_], "channel_size": 8, "kernel_size": 3, "stride_size": 1, "num_blocks": 1, "min_blocks": 1, "max_blocks": 3,
+                                    "min_channel_size": 4, "max_channel_size": 24}
     disc, box = spaces.Discrete(4), spaces.Box(-1.0, 1.0, (2,), np.float32)
     samp = lambda r, n: (_sample_input(sp, r, n),)
     if kind == "QNetwork":
@@ -230,7 +241,9 @@ def gen(prop: str, rng: random.Random, tier: str) -> Dict[str, Any]:
         if kind in ("RainbowQNetwork", "ContinuousQNetwork") and obs == "sequence":
             obs = "vector"
         case = {"kind": kind, "obs": obs, "act": rng.choice(["discrete", "box"]), "simba": kind != "RainbowQNetwork" and rng.random() < 0.15,
-                "no_activation_key": rng.random() < 0.15, "companion": rng.random() < 0.5}
+                "no_activation_key": rng.random() < 0.15, "companion": rng.random() < 0.5, "custom_encoder": rng.choice([None, None, "mlp", "resnet"])}
+        if kind == "RainbowQNetwork":
+            case["custom_encoder"] = None  # (its companion network must have the same encoder family as the policy, as real actor / critic pairs do)
     case["img_hw"] = rng.choice([[12, 12], [12, 12], [8, 24], [10, 40], [24, 8], [16, 16]])  # square, landscape and portrait images
     long_walk = rng.random() < 0.25
     case["tight"] = (not long_walk) and rng.random() < 0.75
